@@ -164,6 +164,16 @@ class TTuple(Ty):
         return "Tuple%r" % (self.items,)
 
 
+class TStack(Ty):
+    """A list used as a stack of entities whose bottom part is unknown: (unknown prefix with an optional known top) ++ concrete items."""
+
+    def __init__(self, e):
+        self.e = e
+
+    def __repr__(self):
+        return "Stack<%r>" % self.e
+
+
 class TEnt(Ty):
     """Mutable object with concrete identity in the executor; fields from the entity table."""
 
@@ -312,8 +322,9 @@ class VMethod(V):
 class VExc(V):
     """Exception instance: cls is a class name; exact=False means 'cls or any subclass'."""
 
-    def __init__(self, cls, args=(), exact=True, tag=None):
+    def __init__(self, cls, args=(), exact=True, tag=None, excl=()):
         self.cls, self.args, self.exact, self.tag = cls, list(args), exact, tag
+        self.excl = list(excl)  # classes (with subclasses) this exception is known NOT to be an instance of
 
     def __repr__(self):
         return "VExc(%s%s)" % (self.cls, "" if self.exact else "+")
@@ -368,6 +379,17 @@ class SetV:
 
     def replace(self, **kw):
         d = SetV(self.ty, self.mem, self.count)
+        for k, v in kw.items():
+            setattr(d, k, v)
+        return d
+
+
+class StackV:
+    def __init__(self, ty, prefix_some, prefix_top, items):
+        self.ty, self.prefix_some, self.prefix_top, self.items = ty, prefix_some, prefix_top, list(items)
+
+    def replace(self, **kw):
+        d = StackV(self.ty, self.prefix_some, self.prefix_top, self.items)
         for k, v in kw.items():
             setattr(d, k, v)
         return d
